@@ -39,11 +39,28 @@ EXPR_VALUES = (7777, 9999)
 TIE_EPS = 2e-10          # seconds; asyncio's clock resolution (1e-9) makes timers this close fire in the same batch
 
 
+class Spinning(RuntimeError):
+    pass
+
+
+SPIN_LIMIT = 20000      # loop iterations at one virtual instant (the largest legitimate burst needs ~1500)
+
+
 class CountingLoop(vloop.VLoop):
     iteration = 0
+    _same = 0
+    _last_clock = -1.0
 
     def _run_once(self):
         self.iteration += 1
+        if self.time() == self._last_clock:
+            self._same += 1
+            if self._same > SPIN_LIMIT:
+                self._same = 0
+                raise Spinning('the event loop spins at virtual time %.3f s without letting time advance' % self.time())
+        else:
+            self._last_clock = self.time()
+            self._same = 0
         return super()._run_once()
 
 
@@ -70,6 +87,7 @@ class Impl:
         self.core_main = core_main
         self.MockAPIRequest = MockAPIRequest
         self.counter = 0
+        self.current = None
 
         class RecPort(core_ports.Port):
             TYPE = core_ports.TYPE_NUMBER
@@ -145,6 +163,7 @@ class Impl:
         port.disable_latency = sc.get('dlat', 0)
         port.write_latency = sc.get('wlat', 0)
         log, notes = [], []
+        self.current = (log, notes, port)       # what was observed so far, should the scenario have to be aborted
 
         def active():
             return port._sequence is not None
@@ -335,8 +354,13 @@ def main():
     impl = Impl()
     out = []
     for sc in scenarios:
+        impl.current = None
         try:
             out.append(run(impl.scenario(sc)))
+        except Spinning as e:
+            log, notes, port = impl.current if impl.current else ([], [], None)
+            out.append({'log': log[:400], 'writes': (port.writes if port else [])[:400], 'notes': notes + [str(e)],
+                        'queue_size': type(port).WRITE_VALUE_QUEUE_SIZE if port else None})
         except BaseException as e:  # noqa: BLE001
             out.append({'log': [], 'writes': [], 'notes': ['worker failure %s: %s' % (type(e).__name__, e)]})
     json.dump(out, sys.stdout)
